@@ -41,6 +41,9 @@ func shardRange(n int64) (lo, hi int64) {
 }
 
 func TestScalarsExhaustive(t *testing.T) {
+	if imldsa.VerifQ != q {
+		t.Fatalf("modulus q = %d, FIPS 204 q = %d", imldsa.VerifQ, q)
+	}
 	// reduceOnce on [0, 2q)
 	lo2, hi2 := shardRange(2 * q)
 	for a := lo2; a < hi2; a++ {
